@@ -74,7 +74,7 @@ ASSUMPTIONS = [
     "residues are undecided (may be returned or not)",
 ]
 KINDS = ["ang", "dih", "ang", "dih", "plain_ang", "plain_dih", "named"]
-NCASES = {"quick": 2100, "thorough": 24000}
+NCASES = {"quick": 3200, "thorough": 24000}
 GEOS = ["random", "random", "random", "long", "collinear", "planar", "grid", "tiny"]
 DATA = "/repo/tests/data/"
 FILES_QUICK = ["1bpi.pdb", "2EQQ.pdb", "1vii.pdb", "native.pdb", "frame0.h5", "4OH9.pdb", "aaqaa-wat.pdb", "ala_ala_ala.pdb",
